@@ -33,22 +33,25 @@ func Peek[T any](obj any, field string) (p *T, ok bool) {
 // StackSite returns the innermost repository frame (pkg.func, no line numbers) of
 // the current goroutine's stack, skipping harness frames; used as a panic site.
 func StackSite() string {
-	buf := make([]byte, 16384)
+	buf := make([]byte, 32768)
 	buf = buf[:runtime.Stack(buf, false)]
 	lines := strings.Split(string(buf), "\n")
-	for _, ln := range lines {
-		if !strings.HasPrefix(ln, "github.com/relab/hotstuff/") {
+	for i := 0; i+1 < len(lines); i++ {
+		ln := lines[i]
+		if !strings.HasPrefix(ln, "github.com/relab/hotstuff/") && !strings.HasPrefix(ln, "github.com/relab/hotstuff.") {
 			continue
 		}
-		if strings.Contains(ln, "/verif/") {
+		file := lines[i+1]
+		if strings.Contains(ln, "/verif/") || strings.Contains(file, "/verif/") || strings.Contains(file, "zz_verif") {
 			continue
 		}
 		fn := ln
-		if i := strings.LastIndex(fn, "("); i > 0 {
-			fn = fn[:i]
+		if k := strings.LastIndex(fn, "("); k > 0 {
+			fn = fn[:k]
 		}
-		fn = strings.TrimPrefix(fn, "github.com/relab/hotstuff/")
-		if strings.HasPrefix(fn, "github.com") {
+		fn = strings.TrimPrefix(strings.TrimPrefix(fn, "github.com/relab/hotstuff/"), "github.com/relab/")
+		// closures of harness code inside repository packages are named like their parent
+		if strings.Contains(fn, "subject") {
 			continue
 		}
 		return fn
